@@ -700,7 +700,7 @@ class Emitter:
             return "(" + ", ".join(self.pat(x) for x in p[1]) + ")"
         if k == "pts":
             name = p[1][-1]
-            ctor = {"Some": "some", "Ok": ".ok", "Err": ".err"}.get(name)
+            ctor = {"Some": "some", "Ok": ".ok", "Err": ".error"}.get(name)
             if ctor is None:
                 ctor = self.p.ctor(p[1])
             if ctor is None:
@@ -771,7 +771,7 @@ class Emitter:
                 return
             k = e[0]
             if k == "mcall":
-                if self.p.mut_method(e[2]) is not None:
+                if self.p.mut_method(e[2], e[1]) is not None:
                     r = e[1]
                     while r[0] in ("paren", "deref", "ref"):
                         r = r[1]
@@ -806,6 +806,13 @@ class Emitter:
             elif k in ("unary", "deref", "ref", "paren", "cast", "field"):
                 walk_expr(e[1] if k not in ("unary",) else e[2], local)
             elif k == "call":
+                if e[1][0] == "path" and self.p.fn_mut(e[1][1][-1]) is not None:
+                    for i in self.p.fn_mut(e[1][1][-1]):
+                        a = e[2][i]
+                        while a[0] in ("paren", "ref", "deref"):
+                            a = a[1]
+                        if a[0] == "path" and len(a[1]) == 1 and a[1][0] not in local:
+                            add(a[1][0])
                 walk_expr(e[1], local)
                 for a in e[2]:
                     walk_expr(a, local)
@@ -885,7 +892,7 @@ class Emitter:
                 if name == "Some" and len(e[2]) == 1:
                     return "(some " + self.expr(e[2][0], env) + ")"
                 if name in ("Ok", "Err") and len(e[2]) == 1:
-                    return "(." + name.lower() + " " + self.expr(e[2][0], env) + ")"
+                    return "(" + {"Ok": ".ok", "Err": ".error"}[name] + " " + self.expr(e[2][0], env) + ")"
                 r = self.p.call(f[1], f[2], e[2], self, env)
                 if r is not None:
                     return r
@@ -979,9 +986,20 @@ class Emitter:
                 if v not in env:
                     env.append(v)
             rhs = s[3]
+            self.p.note_let(s[1], rhs)
             # `let x = recv.mutating_method(args)...;`  hoist the mutation
+            if rhs[0] in ("if", "iflet", "match", "block"):
+                ws = self.assigned(rhs, [v for v in env if v not in self.pat_vars(s[1])])
+                if ws:
+                    # a VALUE-producing branch that also assigns outer variables: thread (value, variables) through it
+                    return [self.let("(" + ", ".join([self.pat(s[1])] + [ident(w) for w in ws]) + ")",
+                                     self.branch_stmt(rhs, env, ws, with_value=True))]
             hoisted = self.hoist(rhs, env)
-            return hoisted[0] + [self.let(self.pat(s[1]), self.expr(hoisted[1], env))]
+            lt = self.p.let_type(s[2]) if s[2] is not None else None
+            val = self.expr(hoisted[1], env)
+            if lt is not None:
+                val = f"({val} : {lt})"
+            return hoisted[0] + [self.let(self.pat(s[1]), val)]
         if k == "assign":
             tgt = s[1]
             if s[2] != "=":
@@ -991,15 +1009,19 @@ class Emitter:
             while base[0] in ("deref", "paren"):
                 base = base[1]
             if base[0] == "path" and len(base[1]) == 1:
+                self.p.note_let(("pid", base[1][0]), s[3])
                 return [self.let(ident(base[1][0]), self.expr(s[3], env))]
             if base[0] == "field" and base[1][0] == "path" and base[1][1] == ["self"]:
-                return [self.let("self", "{ self with " + ident(base[2]) + " := " + self.expr(s[3], env) + " }")]
+                fld = getattr(self.p, "FIELDS", {}).get(base[2], base[2])
+                return [self.let("self", "{ self with " + ident(fld) + " := " + self.expr(s[3], env) + " }")]
             self.fail("assignment target", tgt)
         if k == "expr":
             e = s[1]
-            if e[0] == "mcall" and self.p.mut_method(e[2]) is not None:
+            if e[0] == "mcall" and self.p.mut_method(e[2], e[1]) is not None:
                 h = self.hoist(e, env)
                 return h[0]
+            if e[0] == "call" and e[1][0] == "path" and self.p.fn_mut(e[1][1][-1]) is not None:
+                return self.hoist(e, env)[0]
             if e[0] in ("if", "iflet", "match"):
                 ws = self.assigned(e, env)
                 if not ws:
@@ -1020,19 +1042,31 @@ class Emitter:
             return [self.let(self.tup(ws), f"List.foldl (fun {self.tup(ws)} {self.pat(s[1])} => ({body})) {self.tup(ws)} {it}")]
         self.fail("statement", s)
 
-    def branch_stmt(self, e, env, ws):
-        """an `if` / `if let` / `match` in STATEMENT position: value = tuple `ws` after the taken branch"""
+    def branch_stmt(self, e, env, ws, with_value=False):
+        """an `if` / `if let` / `match` (or block) whose branches assign the outer variables `ws`.  In STATEMENT position
+        its value is the tuple `ws` after the taken branch; with `with_value` it is (value of the branch, ws...)"""
         k = e[0]
-        same = self.wrap(self.tup(ws))
+        if with_value:
+            same = None
+        else:
+            same = self.wrap(self.tup(ws))
 
         def br(b, extra=()):
             if b is None:
+                if with_value:
+                    self.fail("branch without a value", e)
                 return same
             if b[0] == "block":
+                if with_value:
+                    return self.block_value_with(b, env + list(extra), ws)
                 return self.block_value(b, env + list(extra), ws)
             if b[0] in ("if", "iflet", "match"):
+                if with_value:
+                    return self.wrap(self.branch_stmt(b, env + list(extra), ws, True))
                 inner = self.assigned(b, env)
                 return self.wrap(self.branch_stmt(b, env, ws)) if inner else same
+            if with_value:
+                return self.wrap("(" + ", ".join([self.expr(b, env + list(extra))] + [ident(w) for w in ws]) + ")")
             self.fail("branch", b)
         if k == "if":
             return self.run(f"if {self.expr(e[1], env)} then ({self.mk(br(e[2]))}) else ({self.mk(br(e[3]))})")
@@ -1043,21 +1077,56 @@ class Emitter:
             for (pt, g, b) in e[2]:
                 if g is not None:
                     self.fail("match guard", e)
-                if b[0] != "block":
+                if b[0] != "block" and not with_value:
                     b = ("block", [("expr", b)] if b[0] in ("mcall", "if", "iflet", "match") else [], None)
                 arms.append(f"| {self.pat(pt)} => ({self.mk(br(b, self.pat_vars(pt)))})")
             return self.run(f"match {self.expr(e[1], env)} with " + " ".join(arms))
+        if k == "block":
+            return self.run(self.mk(br(e)))
+
+    def block_value_with(self, b, env, ws):
+        """block whose value is (tail value, ws...)"""
+        lines = []
+        env = list(env)
+        for st in b[1]:
+            lines += self.stmt(st, env)
+        if b[2] is None:
+            self.fail("block without a value", b)
+        if b[2][0] in ("if", "iflet", "match") and self.assigned(b[2], env):
+            final = self.wrap(self.branch_stmt(b[2], env, ws, True))
+        else:
+            final = self.wrap("(" + ", ".join([self.expr(b[2], env)] + [ident(w) for w in ws]) + ")")
+        sep = "\n" if self.p.fallible else "; "
+        return sep.join(lines + [final])
 
     def hoist(self, e, env):
         """`recv.m(args)` with m mutating, possibly followed by pure method calls (`.is_some()`): returns
         ([let-lines performing the mutation], expression AST to use for the value)"""
         chain = []
         cur = e
-        while cur[0] == "mcall" and self.p.mut_method(cur[2]) is None:
+        while cur[0] == "mcall" and self.p.mut_method(cur[2], cur[1]) is None:
             chain.append(cur); cur = cur[1]
-        if cur[0] != "mcall" or self.p.mut_method(cur[2]) is None:
+        if cur[0] == "call" and cur[1][0] == "path" and self.p.fn_mut(cur[1][1][-1]) is not None:
+            # call of another translated function with `&mut` parameters: its result carries their new values
+            muts = self.p.fn_mut(cur[1][1][-1])          # indices of the &mut parameters
+            args = [self.expr(a, env) for a in cur[2]]
+            t = self.fresh()
+            names = []
+            for i in muts:
+                a = cur[2][i]
+                while a[0] in ("paren", "ref", "deref"):
+                    a = a[1]
+                if a[0] != "path" or len(a[1]) != 1:
+                    self.fail("argument passed by `&mut` must be a variable", cur)
+                names.append(ident(a[1][0]))
+            lines = [self.let("(" + ", ".join([t] + names) + ")", self.p.fn_call(cur[1][1][-1], args))]
+            val = ("path", [t], None)
+            for c in reversed(chain):
+                val = ("mcall", val, c[2], c[3], c[4])
+            return (lines, val)
+        if cur[0] != "mcall" or self.p.mut_method(cur[2], cur[1]) is None:
             return ([], e)
-        fn, returns = self.p.mut_method(cur[2])
+        fn, returns = self.p.mut_method(cur[2], cur[1])
         r = cur[1]
         while r[0] in ("paren", "deref", "ref"):
             r = r[1]
@@ -1111,7 +1180,16 @@ class BaseProfile:
     def struct(self, segs, fields, em, env):
         return None
 
-    def mut_method(self, name):
+    def mut_method(self, name, recv=None):
+        return None
+
+    def fn_mut(self, name):
+        return None
+
+    def note_let(self, pat, rhs):
+        pass
+
+    def let_type(self, ty):
         return None
 
     def cast(self, text, ty):
@@ -1167,12 +1245,27 @@ class MemProfile(BaseProfile):
         tgt = self.target.replace(" ", "")
         return t in ("Self", tgt)
 
-    def sub_of(self, e, em, env):
-        """the `Sub` observation denoted by expression e (a sub-value of self or a bound variable)"""
+    @staticmethod
+    def self_depth(e):
+        """`self` under parens / references / dereferences: number of `*` (None if the base is not `self`)"""
+        n = 0
         while e[0] in ("paren", "ref", "deref"):
+            if e[0] == "deref":
+                n += 1
             e = e[1]
         if e[0] == "path" and e[1] == ["self"]:
-            return self.use("inner")           # (**self) of Box / Arc / Rc
+            return n
+        return None
+
+    def sub_of(self, e, em, env):
+        """the `Sub` observation denoted by expression e (a sub-value of self or a bound variable)"""
+        d = self.self_depth(e)
+        if d is not None:
+            if d == 2:
+                return self.use("inner")       # (**self) of Box / Arc / Rc: the pointee
+            em.fail("`self` used as a sub-value of itself", e)
+        while e[0] in ("paren", "ref", "deref"):
+            e = e[1]
         if e[0] == "path" and len(e[1]) == 1:
             return ident(e[1][0])              # a variable bound by a closure / pattern: a Sub
         if e[0] == "field" and e[1][0] == "path" and e[1][1] == ["self"]:
@@ -1192,12 +1285,10 @@ class MemProfile(BaseProfile):
                 return self.use("szT")
             em.fail(f"size_of::<{g}>()")
         if name == "size_of_val" and len(args) == 1:
-            a = args[0]
-            while a[0] in ("paren", "ref", "deref"):
-                a = a[1]
-            if a[0] == "path" and a[1] == ["self"]:
+            d = self.self_depth(args[0])
+            if d is not None and d < 2:
                 return self.use("szSelf")
-            return self.sub_of(a, em, env) + ".szv"
+            return self.sub_of(args[0], em, env) + ".szv"
         return None
 
     def method(self, recv, name, generics, args, em, env):
@@ -1265,7 +1356,7 @@ def translate_mem():
         toks = tokenize(open(path).read())
         fns = Parser(toks, rel).parse_file()
         # impls with an EMPTY body use the default method: record them (which types count as `prim`)
-        for m in re.finditer(r"impl\s+MemoryEstimator\s+for\s+([^\{]+?)\s*\{\s*\}", strip_tests(open(path).read())):
+        for m in re.finditer(r"impl\s+MemoryEstimator\s+for\s+([^\{]+?)\s*\{\s*\}", re.sub(r"//[^\n]*", "", strip_tests(open(path).read()))):
             info["default_impls"].append(m.group(1).strip())
         for (hdr, f) in fns:
             if f["name"] != "estimate_memory" or hdr is None or hdr[0] != "MemoryEstimator":
@@ -1304,11 +1395,13 @@ class PureProfile(BaseProfile):
     f64 = any type `F` with a `RustLite.F64` structure `A` (the translated code never looks inside a float)"""
     fallible = False
 
-    def __init__(self, kinds):
-        self.kinds = kinds      # variable name -> "deque" | "map" | "iter" | "f64" | "nat" | "entry" | ...
+    def __init__(self, kinds, fns):
+        self.kinds = dict(kinds)      # variable name -> "deque" | "map" | "iter" | "f64" | "atomic" | ...
+        self.fns = fns                # translated functions of the same file: name -> {"mut_idx": [...], "implicit": [...]}
+        self.uses_float = False
+        self.uses_clock = False
 
-    MUT = {"remove": None, "push_back": ("RustLite.pushBack", False), "pop_front": ("RustLite.popFront", True),
-           "pop_back": ("RustLite.popBack", True), "fetch_add": ("RustLite.fetchAdd", True), "store": ("RustLite.atomicStore", False)}
+    FIELDS = {"frequency": "hits", "inserted_at": "birth", "value": "val"}
 
     def kind_of(self, e):
         while e[0] in ("paren", "ref", "deref"):
@@ -1319,10 +1412,44 @@ class PureProfile(BaseProfile):
             return self.kinds.get("self." + e[2])
         return None
 
-    def mut_method(self, name):
+    def mut_method(self, name, recv=None):
+        kind = self.kind_of(recv) if recv is not None else None
         if name == "remove":
-            return ("RustLite.removeAny", True)      # resolved by the receiver's type class (deque index / map key)
-        return self.MUT.get(name)
+            if recv is None:
+                return ("?", True)
+            if kind == "deque":
+                return ("RustLite.dequeRemove", True)
+            if kind == "map":
+                return ("RustLite.mapRemove", True)
+            raise Untranslatable(f"`remove` on a receiver of unknown kind: {recv}")
+        if name == "push_back":
+            return ("RustLite.pushBack", False)
+        if name == "fetch_add":
+            return ("RustLite.fetchAdd", True)
+        if name == "store" and (recv is None or kind == "atomic"):
+            return ("RustLite.atomicStore", False)
+        return None
+
+    def fn_mut(self, name):
+        f = self.fns.get(name)
+        return f["mut_idx"] if f and f["mut_idx"] else None
+
+    def fn_call(self, name, args):
+        f = self.fns[name]
+        return " ".join([f.get("lean_name", name)] + f["implicit"] + ["(" + a + ")" for a in args])
+
+    def let_type(self, ty):
+        try:
+            return lean_type(ty, "")[0]
+        except Untranslatable:
+            return None
+
+    def note_let(self, pat, rhs):
+        if pat[0] == "pid":
+            if self.is_float(rhs):
+                self.kinds[pat[1]] = "f64"
+            elif rhs[0] == "mcall" and rhs[2] == "collect":
+                self.kinds[pat[1]] = "iter"
 
     def path(self, segs, generics):
         if segs == ["u64", "MAX"]:
@@ -1330,6 +1457,7 @@ class PureProfile(BaseProfile):
         if segs == ["usize", "MAX"]:
             return "RustLite.usizeMax"
         if segs == ["f64", "MAX"]:
+            self.uses_float = True
             return "A.maxVal"
         if segs[0] == "EvictionPolicy" and len(segs) == 2:
             return "Policy." + segs[1].lower()
@@ -1343,12 +1471,14 @@ class PureProfile(BaseProfile):
         return None
 
     def float_lit(self, t):
+        self.uses_float = True
         if t in ("1.0", "0.0"):
             return "A.one" if t == "1.0" else "A.zero"
         raise Untranslatable(f"float literal {t}")
 
     def cast(self, text, ty):
         if ty == "f64":
+            self.uses_float = True
             return f"(A.ofNat {text})"
         raise Untranslatable(f"cast to {ty}")
 
@@ -1381,6 +1511,7 @@ class PureProfile(BaseProfile):
             f = {"+": "add", "-": "sub", "*": "mul", "/": "div", "<": "lt", "<=": "le", ">": "gt", ">=": "ge"}.get(op)
             if f is None:
                 raise Untranslatable(f"float operator {op}")
+            self.uses_float = True
             return f"(A.{f} {a} {b})"
         if op == "-":
             return f"({a} - {b})"          # usize: truncating; the translated sites are `len - idx` with idx < len
@@ -1389,16 +1520,26 @@ class PureProfile(BaseProfile):
         return super().binop(op, a, b, e, em)
 
     def field(self, recv, name, em, env):
+        if name in self.FIELDS:
+            return "(" + em.expr(recv, env) + ")." + self.FIELDS[name]
         return None
 
     def struct(self, segs, fields, em, env):
         return None
 
     def call(self, segs, generics, args, em, env):
+        name = segs[-1]
+        if name in self.fns and not self.fns[name]["mut_idx"]:
+            return "(" + self.fn_call(name, [em.expr(a, env) for a in args]) + ")"
         return None
 
     def method(self, recv, name, generics, args, em, env):
         kind = self.kind_of(recv)
+        r0 = recv
+        while r0[0] in ("paren", "ref", "deref"):
+            r0 = r0[1]
+        if r0[0] == "path" and r0[1] == ["self"] and name in self.fns and not self.fns[name]["mut_idx"]:
+            return "(" + self.fn_call(name, ["self"] + [em.expr(a, env) for a in args]) + ")"
         R = lambda: em.expr(recv, env)
         A_ = lambda i: em.expr(args[i], env)
         if name in ("iter", "clone", "to_string", "to_owned", "into_iter", "as_str", "collect", "copied", "cloned") and not args:
@@ -1426,10 +1567,12 @@ class PureProfile(BaseProfile):
         if name == "to_lowercase" and not args:
             return f"(RustLite.toLowercase {R()})"
         if name == "elapsed" and not args:
+            self.uses_clock = True
             return f"(clock.elapsed {R()})"
         if name == "as_secs" and not args:
             return f"(RustLite.asSecs {R()})"
         if name == "as_secs_f64" and not args:
+            self.uses_float = True
             return f"(A.ofDuration {R()})"
         if name == "load" and len(args) == 1:
             return f"(RustLite.atomicLoad {R()})"
@@ -1443,21 +1586,25 @@ def regenerate():
     os.makedirs(GEN_DIR, exist_ok=True)
     hdr = ("/- GENERATED by checklib/rust2lean.py from /repo's CURRENT source on every check — do not edit.\n"
            "   Shallow translation of pure helper code; `Props/T01.lean` proves these definitions equal to the hand-written model. -/\n"
-           "import Cachelito.RustLite\n\nnamespace Cachelito.Generated\nopen Cachelito\n\n")
+           "import Cachelito.RustLite\n\nset_option linter.unusedVariables false\n\nnamespace Cachelito.Generated\nopen Cachelito\n\n")
     try:
         text, minfo = translate_mem()
         info["mem"] = minfo
-    except Untranslatable as e:
-        problems.append(str(e))
-        text = "-- translation failed: " + str(e).replace("\n", " ") + "\n/-- marker that makes `Props/T01.lean` fail -/\ndef memTranslationFailed : Unit := ()\n"
-    write_if_changed(os.path.join(GEN_DIR, "PureMem.lean"), hdr + "namespace Mem\n\n" + text + "\nend Mem\nend Cachelito.Generated\n")
-    try:
-        text, uinfo = translate_utils()
-        info["utils"] = uinfo
-    except Untranslatable as e:
-        problems.append(str(e))
+    except Exception as e:
+        problems.append(str(e) if isinstance(e, Untranslatable) else f"memory_estimator.rs: translator error {e!r}")
         text = "-- translation failed: " + str(e).replace("\n", " ") + "\n"
-    write_if_changed(os.path.join(GEN_DIR, "PureUtils.lean"), hdr + "namespace Utils\n\n" + text + "\nend Utils\nend Cachelito.Generated\n")
+    write_if_changed(os.path.join(GEN_DIR, "PureMem.lean"), hdr + "namespace Mem\n\n" + text + "\nend Mem\nend Cachelito.Generated\n")
+    for (mod, rel, _, _, _) in UTIL_FILES:
+        try:
+            text, uinfo = translate_utils(mod)
+            info[mod.lower()] = uinfo
+        except Untranslatable as e:
+            problems.append(str(e))
+            text = "-- translation failed: " + str(e).replace("\n", " ") + "\n"
+        except Exception as e:      # the parser met something it does not know: no translation, the obligation is broken
+            problems.append(f"{rel}: translator error {e!r}")
+            text = "-- translation failed: " + repr(e).replace("\n", " ") + "\n"
+        write_if_changed(os.path.join(GEN_DIR, f"Pure{mod}.lean"), hdr + f"namespace {mod}\nvariable {{K V F : Type}} [DecidableEq K]\n\n" + text + f"\nend {mod}\nend Cachelito.Generated\n")
     info["problems"] = problems
     return info
 
@@ -1468,8 +1615,150 @@ def write_if_changed(path, text):
         open(path, "w").write(text)
 
 
-def translate_utils():
-    return "", {"functions": []}
+def lean_type(rust, pname):
+    t = rust.replace(" ", "")
+    base = strip_ref(rust).replace(" ", "")
+    if "HashMap<" in t:
+        return "Store K V", "map"
+    if "VecDeque<" in t:
+        return "List K", "deque"
+    if base in ("str", "String", "K"):
+        return ("String", "str") if pname in ("s", "p") else ("K", "key")
+    if base == "I":
+        return "List (Nat × K)", "iter"
+    if base == "Option<u64>":
+        return "Option Nat", "optnat"
+    if base == "Option<f64>":
+        return "Option F", "optf64"
+    if base in ("u64", "usize"):
+        return "Nat", "nat"
+    if base == "bool":
+        return "Bool", "bool"
+    if base == "Option<String>" or base == "Option<K>":
+        return "Option K", "optkey"
+    if base == "(bool,bool)":
+        return "Bool × Bool", "tuple"
+    if base == "f64":
+        return "F", "f64"
+    if base == "Self":
+        return None, "self"
+    raise Untranslatable(f"parameter / return type `{rust}`")
+
+
+UTIL_FILES = [
+    # (generated module, file, self type in Lean, kinds of self's fields, wanted functions)
+    ("Utils", "cachelito-core/src/utils.rs", None, {}, ["move_key_to_end", "find_min_frequency_key", "remove_from_maps",
+                                               "remove_key_from_global_cache", "remove_key_from_cache_local",
+                                               "find_arc_eviction_key", "find_tlru_eviction_key"]),
+    ("Entry", "cachelito-core/src/cache_entry.rs", "Entry V", {}, ["is_expired", "increment_frequency"]),
+    ("Stats", "cachelito-core/src/stats.rs", "RustLite.StatsCell", {"self.hits": "atomic", "self.misses": "atomic"},
+     ["record_hit", "record_miss", "hits", "misses", "total_accesses", "hit_rate", "miss_rate", "reset"]),
+    ("Policy", "cachelito-core/src/eviction_policy.rs", None, {}, ["is_valid", "from"]),
+]
+
+
+def translate_utils(module):
+    out = []
+    info = {"functions": []}
+    for (mod, rel, self_ty, self_kinds, wanted) in UTIL_FILES:
+        if mod != module:
+            continue
+        path = os.path.join(REPO, rel)
+        fns = parse_source(path)
+        byname = {}
+        for (hdr, f) in fns:
+            if f["name"] in wanted and f["name"] not in byname:
+                byname[f["name"]] = (hdr, f)
+        missing = [w for w in wanted if w not in byname]
+        if missing:
+            raise Untranslatable(f"{rel}: function(s) the model transcribes are missing from the source: {', '.join(missing)}")
+        # signature pass
+        table = {}
+        for name in wanted:
+            hdr, f = byname[name]
+            mut_idx = [i for i, (pn, pt) in enumerate(f["params"]) if pt.replace(" ", "").startswith("&mut")]
+            table[name] = {"mut_idx": mut_idx, "implicit": [], "params": f["params"], "ret": f["ret"]}
+        # body pass in source order of `wanted` (callees first is not required: implicit args are fixed up below)
+        bodies = {}
+        for name in wanted:
+            hdr, f = byname[name]
+            kinds = dict(self_kinds)
+            sig = []
+            for (pn, pt) in f["params"]:
+                if pn == "self":
+                    kinds["self"] = "self"
+                    sig.append(f"(self : {self_ty})")
+                    continue
+                lt, kind = lean_type(pt, pn)
+                kinds[pn] = kind
+                sig.append(f"({ident(pn)} : {lt})")
+            prof = PureProfile(kinds, table)
+            em = Emitter(prof, f"{rel}:{f['line']} ({name})")
+            muts = [f["params"][i][0] for i in table[name]["mut_idx"]]
+            # interior mutability: `&self` methods that mutate a cell of self return the new self
+            if "self" in kinds and "self" not in muts and "self" in em.assigned(f["body"], ["self"] + [p[0] for p in f["params"]]):
+                muts = ["self"] + muts
+                table[name]["mut_idx"] = [i for i, (pn, _) in enumerate(f["params"]) if pn in muts]
+            env = [p[0] for p in f["params"]]
+            if f["ret"] is None and f["body"][2] is not None:       # unit function ending in a block-like statement
+                f["body"] = ("block", f["body"][1] + [("expr", f["body"][2])], None)
+            b = f["body"]
+            lines = []
+            for st in b[1]:
+                lines += em.stmt(st, env)
+            if b[2] is not None:
+                tailv = em.expr(b[2], env)
+                res = "(" + ", ".join([tailv] + [ident(m) for m in muts]) + ")" if muts else tailv
+            else:
+                res = em.tup(muts) if muts else "()"
+            body = "\n".join("  " + l for l in lines + [res])
+            bodies[name] = (sig, body, prof, f, muts)
+        # implicit parameters (float structure / clock), propagated through calls
+        changed = True
+        need = {n: set() for n in wanted}
+        for n in wanted:
+            if bodies[n][2].uses_float:
+                need[n].add("A")
+            if bodies[n][2].uses_clock:
+                need[n].add("clock")
+        while changed:
+            changed = False
+            for n in wanted:
+                for m in wanted:
+                    if m != n and re.search(r"\b" + re.escape(m) + r"\b", bodies[n][1]) and not need[m] <= need[n]:
+                        need[n] |= need[m]; changed = True
+        for n in wanted:
+            table[n]["implicit"] = [x for x in ("A", "clock") if x in need[n]]
+        # second emission now that implicit arguments of callees are known
+        for name in wanted:
+            hdr, f = byname[name]
+            sig, _, _, _, muts = bodies[name]
+            kinds = dict(self_kinds)
+            for (pn, pt) in f["params"]:
+                kinds[pn] = "self" if pn == "self" else lean_type(pt, pn)[1]
+            prof = PureProfile(kinds, table)
+            em = Emitter(prof, f"{rel}:{f['line']} ({name})")
+            env = [p[0] for p in f["params"]]
+            lines = []
+            for st in f["body"][1]:
+                lines += em.stmt(st, env)
+            if f["body"][2] is not None:
+                tailv = em.expr(f["body"][2], env)
+                res = "(" + ", ".join([tailv] + [ident(m) for m in muts]) + ")" if muts else tailv
+            else:
+                res = em.tup(muts) if muts else "()"
+            body = "\n".join("  " + l for l in lines + [res])
+            imp = []
+            if "A" in need[name]:
+                imp.append("(A : RustLite.F64 F)")
+            if "clock" in need[name]:
+                imp.append("(clock : RustLite.Clock)")
+            lname = {"from": "policyFrom", "is_valid": "policyIsValid"}.get(name, name)
+            if lname != name:
+                table[name]["lean_name"] = lname
+            out.append(f"/-- `{rel}:{f['line']}`  fn {name} -/\ndef {lname} {' '.join(imp + sig)} :=\n{body}\n")
+            info["functions"].append({"name": name, "file": rel, "line": f["line"], "mutates": muts, "implicit": table[name]["implicit"]})
+    return "\n".join(out), info
 
 
 if __name__ == "__main__":
